@@ -85,6 +85,17 @@ BytePosStrs == {Pad(p_, 0) \o <<b>> \o Pad(q_, p_) : b \in 0..127, p_ \in 0..17,
                  \cup {Pad(p1, 0) \o <<b1>> \o Pad(p2, p1) \o <<b2>> \o Pad(3, 5) : b1 \in {31, 34, 92, 10}, b2 \in {31, 34, 92, 10},
                                                                                    p1 \in 0..9, p2 \in 0..9}
 DocsBytePos == {<<<<"o", <<<<k, <<"s", k>>>>>>>>>> : k \in BytePosStrs}
+\* numbers whose VALUE WORD starts with a byte that is a tape tag (N { [ r " } l) and a float with the same property (1e+68:
+\* 0x4e...): whoever scans tape words for tags must not take a value word for one
+nN == <<"num", <<53, 54, 50, 48, 52, 57, 50, 51, 51, 52, 57, 53, 56, 51, 55, 57, 48, 48, 57>>>>
+nLBC == <<"num", <<56, 56, 54, 51, 48, 56, 52, 48, 54, 54, 54, 54, 53, 49, 51, 54, 49, 50, 57>>>>
+nLBK == <<"num", <<54, 53, 53, 55, 50, 52, 49, 48, 53, 55, 52, 53, 49, 52, 52, 50, 49, 55, 55>>>>
+nR == <<"num", <<56, 50, 49, 52, 53, 54, 53, 55, 50, 48, 51, 50, 51, 55, 56, 52, 55, 48, 53>>>>
+nQ == <<"num", <<50, 52, 52, 57, 57, 53, 56, 49, 57, 55, 50, 56, 57, 53, 52, 57, 56, 50, 53>>>>
+nRBC == <<"num", <<57, 48, 48, 55, 49, 57, 57, 50, 53, 52, 55, 52, 48, 57, 57, 50, 48, 48, 50>>>>
+nl == <<"num", <<55, 55, 56, 50, 50, 50, 48, 49, 53, 54, 48, 57, 54, 50, 49, 55, 48, 57, 49>>>>
+f68 == <<"num", <<49, 101, 43, 54, 56>>>>
+DocsTagBytes == {<<<<"o", <<<<ka, <<"a", <<nN, f68>>>>>>, <<kb, <<"a", <<nLBC, <<"a", <<nR, nRBC>>>>, nQ>>>>>>, <<kc, nLBK>>, <<kd, <<"a", <<nl>>>>>>>>>>>>}
 SetOpsNull == {<<"null", 0>>, <<"str", <<122>>>>}
 FilterKeysDef == {<<122>>}
 =============================================================================
